@@ -31,3 +31,17 @@ func ConstInt(v ssa.Value) (int64, bool) {
 	}
 	return 0, false
 }
+
+// ConstFloat returns the numeric value of a constant (integer or float kind).
+func ConstFloat(v ssa.Value) (float64, bool) {
+	c, ok := v.(*ssa.Const)
+	if !ok || c.Value == nil {
+		return 0, false
+	}
+	switch c.Value.Kind() {
+	case constant.Int, constant.Float:
+		f, _ := constant.Float64Val(constant.ToFloat(c.Value))
+		return f, true
+	}
+	return 0, false
+}
